@@ -22,7 +22,9 @@ sec = """## 10. Seeded changes: which checks catch which changes
 Each change was written by a fresh sub-agent that saw only the property text and its own scratch worktree of `/repo`
 (nothing from `/verif`), was required to compile, pass the unchanged test suite, and come with a demonstration program that
 fails with the change and passes without it.  A second round asked for HARDER changes: manifesting only for the u64-digit
-types, only for N >= 9, or only on value patterns that random and boundary sampling hit with probability below 2^-30.
+types, only for N >= 9, or only on value patterns that random and boundary sampling hit with probability below 2^-30.  A third
+round (ids -5, -6) described a differential tester to the sub-agent (exhaustive 8/16-bit types, nine digit counts, random +
+boundary values, both build modes) and asked for changes designed to EVADE it.
 I re-confirmed every one myself (`tools/confirm_mutant.sh`: demo on the clean tree, build with both feature sets, full
 suite, demo with the change in debug and release) and then ran my checks with the patch applied to `/repo`
 (`tools/seedrun.sh`, quick tier, `VERIF_SEED=7`), undoing it straight afterwards.  %d changes: %d detected by the quick
@@ -41,12 +43,23 @@ confined to one build mode (c15-1, c17-2, c20-1, c04-2: debug only) are caught b
 assertions on and off.  (iv) Non-termination (c18-1) is caught because every run is under a time limit and the driver bisects for
 the hanging case.  (v) What the first runs MISSED and what I did: c08-3 (a wrong ilog10 estimate at >= 681 bits, wrong only for
 particular exponents) - the generator sampled exponents; it now enumerates every power of 2 and 10 at every configuration up to 1100
-bits; c18-1 needed a u8-digit type wider than 256 bits - configuration (8,33) added; c10-3 / c10-4 need inputs of 2^30 .. 2^32
-characters - out of reach of the model runner (and of any quick check); the thorough tier now runs implementation-only huge-input
-cases judged against the property text (leading zeros never matter; an over-long digit run is PosOverflow).  A change that is wrong
-only on a value pattern of negligible probability that is not a boundary shape of the algorithm (none was delivered in that form that
-survived the suite) would be missed by the correspondence; only the parts regenerated from source (digit.rs, the constant tables)
-would catch it through a broken proof obligation - this is the stated limit of a hand-written model tied by differential testing.
+bits; c18-1 needed a u8-digit type wider than 256 bits - configuration (8,33) added; c18-3 (non-termination) took 25 minutes to
+report - the harness now flushes one result per case and the driver detects a stalled case directly; c18-4 (Newton loop capped at
+64 steps) - the generator now builds the longest descents (degree k around BITS/4..BITS/12, radicand of bit length m*k+1);
+c10-3 / c10-4 / c15-6 need inputs of 2^30 .. 2^32 characters / bytes - out of reach of the model runner (and of any quick check);
+the thorough tier now builds such inputs inside the harness and judges them against the theorem's statement.  The EVASIVE third
+round found three classes I had not covered, all by choosing a digit count or width outside my configuration table rather than a
+value: (a) counters / indices narrowed to `u8` that wrap at N >= 257 (c13-5/6, c11-5/6) - configuration (8,300) added to the
+standard table; (b) width arithmetic narrowed to `i16`/`u16` that wraps at >= 32768 / 65536 bits (c09-5/6) - configuration
+(64,1025) added to the cast / conversion grids; (c) a decimal-logarithm constant rounded the wrong way in a parsing shortcut, wrong
+at 10 resp. 20 of the 1024 widths only (c10-5/6) - the thorough tier now sweeps EVERY u8-digit width 8..8192 bits for C10, C11, C14
+(cargo feature `sweep`).  c12-5/6 and c15-5 of that round were caught as delivered (powers of ten and mixed 00/ff padding were
+already generator patterns).  (vi) Since the translators of section 4.5 were merged, a change to a translated function ALSO breaks
+a tie lemma (or stops the translator), whatever the value pattern needed to expose it: re-running the seeded changes shows both a
+broken proof obligation and a concrete failing input in the report; the sub-agents' own mutation tables (tools/*_TRANSLATOR.md, about
+400 behaviour-changing edits in all) record which lemma each edit breaks.  What remains tied by sampling alone: `fmt` glue around
+std's formatter, the num-traits `Roots` / `gcd` code and the reference / assign operator forms (being translated at the time of
+writing), derived `Hash`, and the modelled primitives of the trusted base.
 """ % (n_total, n_quick, n_thorough, n_total - n_quick - n_thorough, "\n".join(rows))
 p = os.path.join(ROOT, "DESIGN.md")
 s = open(p).read()
